@@ -294,6 +294,16 @@ theorem C18_global_writes_expected :
 statistics code. -/
 theorem C18_time_sites_expected : ∀ c ∈ timeSites, c ∈ timeExpectations.map Prod.fst := by decide
 
+/-- No map iteration hidden behind `maps.Keys/Values/All`, reflection or `sync.Map.Range` other than the
+expected debug printer: every enumeration of a map in the pipeline is a `range` statement of the inventory. -/
+theorem C18_hidden_map_iteration_expected :
+    ∀ c ∈ hiddenMapIterSites, c ∈ hiddenMapIterExpectations.map Prod.fst := by decide
+
+/-- No package-level state of reference type (caches, registries) other than the expected read-only tables:
+together with `C18_global_writes_expected`, nothing survives from one generation to the next. -/
+theorem C18_package_state_expected :
+    ∀ v ∈ packageVarSites, v ∈ packageVarExpectations.map Prod.fst := by decide
+
 /-! ## Part 4: the fixed finding C18-opt-alias-collision (record)
 
 Until /repo commit af67537 compiler/syntax.go `convertPart` copied `rhs.names` into `args.Names` inside the
